@@ -90,11 +90,11 @@ def main(tier):
         ob(ok_tr, "B2:tr-hashes-whole-key", {"rule": "B2 tr of a deserialised key is H(all PK_LEN bytes of the encoding, 64)", "entry": j["root"], "set": s, "tr_tag": tr_tag, "hash_instance": seen})
         for ent in ("verify", "hash_verify"):
             jv = J[ent]
-            mus = [x for x in st.dedup(st.sites_under(jv, "verify_internal>h256_xof", "Shake256")) if len(x["items"]) >= 4]
-            ok_mu = len(mus) >= 1 and all(x["items"][0]["len"] == [64, 64] and x["items"][0].get("tag") == "pk.tr" for x in mus)
+            mus = st.hash_roles(jv, "pk.tr")["mu"]
+            ok_mu = len(mus) == 1 and len(mus[0]["items"]) >= 4
             ob(ok_mu, "B2:mu-absorbs-whole-tr:%s" % ent, {"rule": "B2 mu absorbs all 64 bytes of the key's tr first", "entry": jv["root"], "set": s,
                                                           "first_items": [(x["items"][0]["len"], x["items"][0].get("tag")) for x in mus]})
-            ea = [x for x in st.dedup(absorb.sites(jv, "xof")) if x["path"].endswith("verify_internal>expand_a>rej_ntt_poly>g128_xof")]
+            ea = [x for x in st.dedup(absorb.sites(jv, "xof")) if x["path"].endswith("expand_a>rej_ntt_poly>g128_xof")]
             ob(len(ea) == P["k"] * P["l"] and all(x["items"][0].get("tag") == "pk.rho" and x["items"][0]["len"] == [32, 32] for x in ea), "B2:matrix-from-whole-rho:%s" % ent,
                {"rule": "B2 every ExpandA instance of verification absorbs all 32 bytes of the key's rho", "entry": jv["root"], "set": s, "instances": len(ea),
                 "tags": sorted({str(x["items"][0].get("tag")) for x in ea})})
